@@ -1,5 +1,6 @@
 """C10 — namespace -> prefix/module assignment is injective and stable in one output."""
 from engine.rulekit import hir as Hh
+from engine.rulekit import inline as I
 from engine.rulekit import mir as M
 from engine.rulekit import og
 from engine.rulekit import scans
@@ -24,7 +25,8 @@ def run(ck, F):
     if fb is None or not fb.get("mir"):
         ck.undecided("R1", "anchor", "-", "make_abbreviated_namespace not found")
         return
-    B = M.Body(fb)
+    # helper functions and directly called closures of the abbreviation function are part of it
+    B = I.inlined_body(F.lib, MAKE)
     # ---- R1
     rets = []
     for i in sorted(B.reach):
@@ -40,7 +42,7 @@ def run(ck, F):
         rv = s["rv"]
         val_roots = set()
         if rv["k"] == "use":
-            for o in M.trace(B, rv["op"], ()):
+            for o in M.trace(B, rv["op"], M.IDENTITY_CALLS):
                 val_roots.add(getattr(o, "local", None) if o.kind != "call" else ("call", o.bb))
             src_local = rv["op"]["p"]["l"] if rv["op"].get("k") in ("copy", "move") else None
         else:
@@ -73,7 +75,7 @@ def run(ck, F):
             cap = clo[0].rv["ops"]
             cap_locals = set()
             for o in cap:
-                for x in M.trace(B, o, ()):
+                for x in M.trace(B, o, M.IDENTITY_CALLS):
                     cap_locals.add(getattr(x, "local", None) if x.kind != "call" else ("call", x.bb))
             if not (cap_locals & val_roots):
                 why = "the value tested is not the value returned"
@@ -173,12 +175,15 @@ def _arm_when_false(B, abb, at):
     dest = at["dest"]["l"]
     neg = False
     cur = dest
-    for _ in range(3):
+    for _ in range(8):
         uses = [u for u in M.uses_of_local(B, cur) if u[1] != "drop"]
         for (ubb, where, j, x) in uses:
             if where == "stmt" and x["rv"]["k"] == "unop" and x["rv"]["op"] == "Not":
                 neg = not neg
                 cur = x["p"]["l"]
+                break
+            if where == "stmt" and x["rv"]["k"] == "use" and not x["p"].get("proj"):
+                cur = x["p"]["l"]   # a copy (e.g. the result of an inlined closure handed to its caller)
                 break
             if where == "term" and x.get("k") == "switch":
                 vals = [v for v, _ in x["targets"]]
